@@ -127,6 +127,17 @@ CHECKS = [
         "note": "a cost property decided on an enumerated family: shows boundedness there, not an asymptotic theorem; C-level iterators are covered by a CPU-time backstop only",
     },
     {
+        "property_id": "C17",
+        "level": "exploration",
+        "design_ref": "DESIGN.md 4/C17",
+        "technique": "exhaustive enumeration of (fault category, surrounding lines, EOL style, location in the dependency graph) with the expected path/line computed from the generated text",
+        "text": "15 fault categories (immediate, lazily committed and finalize-time errors) and @print x every prefix/suffix of context lines over a 5-symbol "
+        "alphabet x LF/CRLF x five locations (target, dependency in a lookup root, dependency of a dependency, same-root dependency read before / "
+        "after its referrer): error.path must be the faulty file, a reported line the fault's own line, @print delivered exactly once with its own "
+        "path and line. Four attribution defects found this way were repaired.",
+        "note": "a line is only checked when one is reported; missing-mode errors have no single offending statement and only their path is checked",
+    },
+    {
         "property_id": "C18",
         "level": "exploration",
         "design_ref": "DESIGN.md 4/C18",
